@@ -7,6 +7,13 @@ ROOT = os.path.dirname(os.path.dirname(os.path.abspath(__file__)))
 ALL = ["C%02d" % i for i in range(1, 20)]
 
 CHECKS = {
+    "C15": {
+        "spec": "specs/Factory.tla + FactoryTrace.tla",
+        "text": "TLC checks the nine formulas of C15 on Factory.tla over all histories (demand writes, child supply/utilisation changes, children disabling themselves, mortuary collection, adjustment cycles) to a bounded depth, with the shrink order free within the sort key's ties; TLC -simulate generates behaviours (three factories) that are replayed on a real FactoryPool whose run() is stepped one interval at a time under a virtual clock, plus random histories driven against the live pool; every trace is validated by TLC (an adjustment conforms if some tie order explains it).",
+        "note": "<= 6 children per history, small integer demands/supplies; hatchery/mortuary membership read from private attributes; released children never raise their demand again.",
+        "design": "5/C15, 4.11",
+        "technique": "TLA+ model checking (TLC) + TLC-simulated behaviours replayed on the real FactoryPool + trace validation",
+    },
     "C07": {
         "spec": "specs/Composite.tla + CompositeTrace.tla",
         "text": "TLC checks the seven formulas of C07 on Composite.tla for the uniform and the three weighted composites over all histories (writes, reads, child state changes, children added/removed) to a bounded depth, with exact rational shares (scaled by lcm(1..16)); TLC -simulate generates behaviours of depth 14 that are replayed on real UniformComposite/WeightedComposite objects over recording children, together with random histories; every trace is validated by TLC on the observed shares and aggregates.",
